@@ -5,6 +5,7 @@ import (
 	"bytes"
 	"fmt"
 	"io"
+	"runtime"
 	"sync"
 
 	"github.com/gregoryv/mq"
@@ -24,7 +25,7 @@ func init() { register(c14{}) }
 func (c14) ID() string    { return "C14" }
 func (c14) Level() string { return "exploration" }
 func (c14) Rule() string {
-	return "(i) value oracle: frames of every type including type 0 are decoded with UnmarshalBinary on zero, NewX() and reused receivers and with ReadPacket from a stream; all accessors are snapshotted, the input slice is overwritten with 0xAA and then with random bytes, and the snapshot must not change; packets read earlier from a stream must not change when later ones are read. (ii) race oracle (race-detector build): after the decode one goroutine scribbles over the input slice while another reads every accessor and calls WriteTo/String/Dump with no synchronisation — any aliasing is a data race even where values coincide. (iii) pools of 4..16 packets (decoded ones and fresh NewX() values, which share package-level data) under random histories of decode-into / encode / setter operations (also setters of two packets given one argument slice with spare capacity, and the program overwriting byte slices that accessors handed out): every untouched packet keeps its snapshot after every step and a reference frame decodes to the same snapshot wherever in the history it is decoded. distinct = (type, receiver kind, frame digest) resp. history signature; non-trivial = frame body non-empty"
+	return "(i) value oracle: frames of every type including type 0 are decoded with UnmarshalBinary on zero, NewX() and reused receivers and with ReadPacket from a stream; all accessors are snapshotted, the input slice is overwritten with 0xAA and then with random bytes, and the snapshot must not change; packets read earlier from a stream must not change when later ones are read. (ii) race oracle (race-detector build): after the decode one goroutine scribbles over the input slice while another reads every accessor and calls WriteTo/String/Dump with no synchronisation — any aliasing is a data race even where values coincide. (iii) pools of 4..16 packets (decoded ones and fresh NewX() values, which share package-level data) under random histories of decode-into / encode / setter operations (also setters of two packets given one argument slice with spare capacity, and the program overwriting byte slices that accessors handed out): every untouched packet keeps its snapshot after every step and a reference frame decodes to the same snapshot wherever in the history it is decoded. (iv) long runs over a working set of 64..4097 recurring names (topics, user-property keys, client ids), each decode compared with the reference reading; byte slices handed out by accessors are kept while their packets are dropped and collected, and must not change. distinct = (type, receiver kind, frame digest) resp. history signature; non-trivial = frame body non-empty"
 }
 func (c14) Assumptions() []string {
 	return []string{"slices handed to setters are the caller's business; the property concerns buffers handed to UnmarshalBinary / read buffers", "decoding into a used packet may leave any state in that packet, but must not touch others"}
@@ -32,13 +33,75 @@ func (c14) Assumptions() []string {
 
 func (c14) Phases(env run.Env) []run.Phase {
 	if env.Thorough {
-		return []run.Phase{{Name: "overwrite-input", N: 400000}, {Name: "scribble-under-race-detector", Race: true, N: 60000}, {Name: "pools", N: 400000}}
+		return []run.Phase{{Name: "overwrite-input", N: 400000}, {Name: "scribble-under-race-detector", Race: true, N: 60000}, {Name: "pools", N: 400000}, {Name: "working-set", N: 400}}
 	}
-	return []run.Phase{{Name: "overwrite-input", N: 1600}, {Name: "scribble-under-race-detector", Race: true, N: 200}, {Name: "pools", N: 2000}}
+	return []run.Phase{{Name: "overwrite-input", N: 1600}, {Name: "scribble-under-race-detector", Race: true, N: 200}, {Name: "pools", N: 2000}, {Name: "working-set", N: 16}}
+}
+
+// c14WorkingSet decodes many PUBLISH frames whose topics, user-property keys
+// and client ids come from a working set of a few hundred to a few thousand
+// distinct names that keep coming back, as on a real broker connection:
+// interning tables, caches with eviction and the like see hits, misses and
+// evictions. Every decode is compared with the reference reading.
+func c14WorkingSet(c *run.Ctx, r *gen.RNG, idx int) {
+	size := []int{64, 300, 1000, 1024, 1025, 1500, 2048, 4097}[idx%8]
+	names := make([]string, size)
+	for i := range names {
+		names[i] = fmt.Sprintf("devices/%04d/%s", i, gen.UTF8(r, 1+r.Intn(6)))
+		if r.Chance(1, 8) {
+			names[i] = fmt.Sprintf("tenant-%06d", r.Intn(1000000))
+		}
+	}
+	rounds := 5 * size
+	if rounds < 4000 {
+		rounds = 4000
+	}
+	last := names[0]
+	for k := 0; k < rounds; k++ {
+		var name string
+		switch {
+		case k < 2*size: // every name twice in a row (a burst of messages on one topic)
+			name = names[k/2]
+		case k < 3*size: // then all of them once more, in order
+			name = names[k-2*size]
+		case r.Chance(1, 3): // later: random names, often the one just seen
+			name = last
+		default:
+			name = names[r.Intn(size)]
+		}
+		last = name
+		a := &ref.Packet{Type: ref.TPublish, Topic: name, Payload: []byte(name)}
+		if k%3 == 0 {
+			a.Props = []ref.Prop{{ID: 0x26, S: names[(k*7)%size], V: names[(k*13)%size]}, {ID: 0x08, S: names[(k*3)%size]}}
+		}
+		if k%5 == 0 {
+			a = &ref.Packet{Type: ref.TConnect, ProtoName: "MQTT", ProtoVer: 5, ClientID: name, ConnFlags: ref.CFUsername, Username: names[(k*11)%size]}
+		}
+		f, _ := ref.Encode(a)
+		res := libRead(f)
+		c.Eval(1)
+		if ok, why := sameOutcome(isolated{Accepted: true, Snap: a.Flat(), FromRef: true}, res); !ok {
+			c.Violation("C14/history-dependent-decode/working-set/"+tname(int(a.Type)), fmt.Sprintf("frame %d of a long run over a working set of %d names: %s", k, size, why),
+				map[string]interface{}{"frame": hexClip(f, 512), "working_set": size, "position": k})
+			return
+		}
+		if k%1024 == 0 {
+			c.Tick()
+		}
+	}
+	c.Distinct(run.Hash64("working-set", itoa(size), itoa(idx)), true)
+	c.Count("working-set", itoa(size), int64(rounds))
+	if idx < 8 {
+		c.Sample(map[string]interface{}{"working_set_size": size, "frames_decoded": rounds, "what": "PUBLISH/CONNECT frames whose names recur; each decode compared with the reference reading"})
+	}
 }
 
 func (c14) Run(c *run.Ctx, phase, idx int) {
 	r := rng(c.Env, "C14", phase, idx)
+	if phase == 3 {
+		c14WorkingSet(c, r, idx)
+		return
+	}
 	switch phase {
 	case 0:
 		c14Overwrite(c, r)
@@ -178,6 +241,69 @@ func c14Overwrite(c *run.Ctx, r *gen.RNG) {
 				return
 			}
 		}
+	}
+	// second pass over the same stream: only the byte slices the accessors
+	// hand out are kept, the packets themselves are dropped and collected
+	// (a decoder that recycles a packet's buffers once the packet is garbage
+	// must not have handed those buffers out)
+	if r.Chance(1, 4) {
+		type keptSlice struct {
+			b, want []byte
+			what    string
+		}
+		var keptSl []keptSlice
+		rd2 := bufio.NewReaderSize(bytes.NewReader(stream), 64)
+		for range frames {
+			res := mon.Read(rd2)
+			if !res.Accepted() {
+				if res.Panic != nil {
+					break
+				}
+				continue
+			}
+			mon.Guard(func() {
+				add := func(what string, b []byte) {
+					if len(b) > 0 {
+						keptSl = append(keptSl, keptSlice{b, append([]byte(nil), b...), what})
+					}
+				}
+				switch x := res.Pkt.(type) {
+				case *mq.Publish:
+					add("Publish.Payload", x.Payload())
+					add("Publish.CorrelationData", x.CorrelationData())
+				case *mq.Connect:
+					add("Connect.Password", x.Password())
+					add("Connect.AuthData", x.AuthData())
+					if w := x.Will(); w != nil {
+						add("Will.Payload", w.Payload())
+					}
+				case *mq.ConnAck:
+					add("ConnAck.AuthData", x.AuthData())
+				case *mq.Auth:
+					add("Auth.AuthData", x.AuthData())
+				case *mq.Undefined:
+					add("Undefined.Data", x.Data())
+				case *mq.SubAck:
+					add("SubAck.ReasonCodes", x.ReasonCodes())
+				}
+			})
+			res = mon.ReadResult{}
+			runtime.GC()
+			runtime.GC() // finalizers of the dropped packet have had their chance
+			runtime.Gosched()
+		}
+		// more traffic, then look at the slices again
+		for k := 0; k < 3; k++ {
+			noise(r)
+		}
+		for _, ks := range keptSl {
+			if !bytes.Equal(ks.b, ks.want) {
+				c.Violation("C14/accessor-result-changed-after-packet-dropped/"+ks.what, fmt.Sprintf("the slice %s returned changed after its packet was dropped, collected and other frames were read", ks.what),
+					map[string]interface{}{"stream": hexClip(stream, 1024)})
+				return
+			}
+		}
+		c.Count("kept-slices", "checked", int64(len(keptSl)))
 	}
 	if c.WantSample() && len(frames) > 1 {
 		var seq []string
